@@ -420,6 +420,42 @@ def St.untrack (s : St) (ps : List Path) : St × Out :=
     | (s1, .panic) => (s1, .panic)
     | (s1, _) => ((s.untrackDeletable ts).foldl St.removeObj (s1.dropRecs ts), .ok)
 
+/-- what `untrack --restore-versions DIR` copies out: one file per target path and recorded version,
+    `DIR/<parent of the path>/<stem>-<address prefix>.<ext>` -/
+def St.restoreItems (s : St) (ts : List Ent) : List (Path × Addr) :=
+  ts.flatMap (fun e =>
+    match s.recs e with
+    | some r => r.digests.map (fun d => (r.path, addrOf r.path d))
+    | none => [])
+
+/-- the copy loop of `untrack --restore-versions DIR`: the versions of the targets are copied out one
+    after the other (`fs::copy(cache object, destination)`).  `blocked` lists the copies that fail for
+    a reason outside xvc (something in the way at the destination name, name too long, disk full …); a
+    version whose object is not in the cache fails too.  The first failure aborts the whole command
+    (`uwr!`).  Result: what was written, and whether every copy succeeded. -/
+def St.restoreCopies (s : St) (blocked : List (Path × Addr)) : List (Path × Addr) → List (Path × Addr × Bytes) × Bool
+  | [] => ([], true)
+  | x :: xs =>
+    match s.cache x.2 with
+    | none => ([], false)
+    | some o =>
+      if x ∈ blocked then ([], false)
+      else ((x.1, x.2, o.b) :: (s.restoreCopies blocked xs).1, (s.restoreCopies blocked xs).2)
+
+/-- `cmd_untrack` with `--restore-versions`: links are re-materialised, every recorded version of every
+    target is written out, and only then records and objects are removed, exactly as in `untrack`. -/
+def St.untrackRestore (s : St) (ps : List Path) (blocked : List (Path × Addr)) :
+    (St × Out) × List (Path × Addr × Bytes) :=
+  let ts := s.targetEnts ps
+  if ts.any (fun e => match s.recs e with | some r => (s.ws r.path).isNone | none => false) then ((s, .panic), [])
+  else
+    match s.rematerialise ts with
+    | (s1, .panic) => ((s1, .panic), [])
+    | (s1, _) =>
+      match s1.restoreCopies blocked (s.restoreItems ts) with
+      | (w, false) => ((s1, .panic), w)
+      | (w, true) => (((s.untrackDeletable ts).foldl St.removeObj (s1.dropRecs ts), .ok), w)
+
 /-! ## `copy` and `move` (single file source, file destination, from the root) -/
 
 structure CopyOpts where
@@ -514,6 +550,7 @@ inductive Cmd where
   | recheck (ps : List Path) (m : Option Method) (force : Bool)
   | remove (ps : List Path) (allVersions force : Bool)
   | untrack (ps : List Path)
+  | untrackRestore (ps : List Path) (blocked : List (Path × Addr))
   | copy (src dst : Path) (o : CopyOpts)
   | move (src dst : Path) (o : CopyOpts)
   deriving Repr
@@ -526,6 +563,7 @@ def St.step (c : Cfg) (s : St) : Cmd → St × Out
   | .recheck ps m f => s.recheck c m f ps
   | .remove ps a f => s.remove ps a f
   | .untrack ps => s.untrack ps
+  | .untrackRestore ps bl => (s.untrackRestore ps bl).1
   | .copy a b o => s.copy c o a b
   | .move a b o => s.move c o a b
 
